@@ -424,7 +424,7 @@ fn collect_leaves(s: &(Loc, Sym, Loc), toks: &mut Vec<usize>, errs: &mut Vec<(Lo
 }
 
 /// Returns property violations as (property id, message).
-fn check_path(b: &Bounds, events: &[Ev], result: &Result<ParseResult<SymDef>, String>) -> Vec<(&'static str, String)> {
+fn check_path(b: &Bounds, events: &[Ev], result_opt: Option<&Result<ParseResult<SymDef>, String>>) -> Vec<(&'static str, String)> {
     let mut v: Vec<(&'static str, String)> = vec![];
     // ---- replay the LR-run specification over the decisions and compare with what the driver did
     let mut pulled: Vec<usize> = vec![];
@@ -527,7 +527,8 @@ fn check_path(b: &Bounds, events: &[Ev], result: &Result<ParseResult<SymDef>, St
         }
     }
     let _ = (iter_end, in_error_path);
-    // ---- the result
+    // ---- the result (paths cut by a bound have none: only the event-level properties above apply to them)
+    let result = match result_opt { Some(r) => r, None => return v };
     let last_pulled = pulled.last().cloned();
     match result {
         Err(msg) => { v.push(("C08", format!("the driver panicked: {}", msg))); }
@@ -634,7 +635,7 @@ fn main() {
         let (_z, trace, _p, events, res, _) = run_path(s, b, z3);
         println!("trace: {:?}", trace);
         for e in &events { println!("  {:?}", e); }
-        match &res { Ok(r) => { println!("result: {}", match r { Ok(Ok(_)) => "Ok".to_string(), Ok(Err(e)) => format!("{:?}", e), Err(m) => format!("PANIC {}", m) }); for (p, m) in check_path(&b, &events, r) { println!("VIOLATION {} {}", p, m); } }, Err(c) => println!("cut: {}", c) }
+        match &res { Ok(r) => { println!("result: {}", match r { Ok(Ok(_)) => "Ok".to_string(), Ok(Err(e)) => format!("{:?}", e), Err(m) => format!("PANIC {}", m) }); for (p, m) in check_path(&b, &events, Some(r)) { println!("VIOLATION {} {}", p, m); } }, Err(c) => { println!("cut: {}", c); for (p, m) in check_path(&b, &events, None) { println!("VIOLATION {} {}", p, m); } } }
         return;
     }
     work.push(vec![]);
@@ -653,7 +654,12 @@ fn main() {
         paths += 1;
         maxlen = maxlen.max(trace.len());
         match res {
-            Err(c) => { cut += 1; *cuts.entry(c).or_insert(0) += 1; }
+            Err(c) => {
+                cut += 1; *cuts.entry(c).or_insert(0) += 1;
+                for (p, m) in check_path(&b, &events, None) {
+                    if viols.len() < 50 { viols.push((p.to_string(), m, trace.iter().map(|c| c.to_string()).collect::<Vec<_>>().join(","))); }
+                }
+            }
             Ok(r) => {
                 let kind = match &r { Ok(Ok(_)) => "Ok", Ok(Err(ParseError::UnrecognizedToken { .. })) => "UnrecognizedToken", Ok(Err(ParseError::UnrecognizedEof { .. })) => "UnrecognizedEof",
                     Ok(Err(ParseError::ExtraToken { .. })) => "ExtraToken", Ok(Err(ParseError::User { .. })) => "User", Ok(Err(ParseError::InvalidToken { .. })) => "InvalidToken", Err(_) => "PANIC" };
@@ -663,7 +669,7 @@ fn main() {
                 if samples.len() < 12 && (paths % 97 == 1 || recov > 0 && samples.len() < 6) {
                     samples.push(format!("{{\"decisions\":{:?},\"result\":{},\"events\":{}}}", trace, jstr(kind), events.len()));
                 }
-                for (p, m) in check_path(&b, &events, &r) {
+                for (p, m) in check_path(&b, &events, Some(&r)) {
                     if viols.len() < 50 { viols.push((p.to_string(), m, trace.iter().map(|c| c.to_string()).collect::<Vec<_>>().join(","))); }
                 }
             }
